@@ -141,6 +141,8 @@ def parse_operand(op):
 
 def parse_rvalue(rv):
     rv = rv.strip()
+    if rv.startswith('no_retag '):
+        rv = rv[9:]
     if rv.startswith('&mut '):
         return ('ref', parse_place(rv[5:]))
     if rv.startswith('&raw '):
